@@ -29,6 +29,9 @@ def judge(out, script, what):
     ctx = f"{what}; script {script}; trace: {trace_text(w)}"
     if out.get("loop_exc") is not None:
         fail(f"connect_loop() raised {out['loop_exc']!r}; {ctx}", sig="loop-raised")
+    if out.get("livelock"):
+        tail = "; ".join(f"{t:g}s#{it}:{k}{'' if a is None else a}" for t, it, k, a in w.events[-6:])
+        fail(f"the event loop spun for {vtloop.SPIN_LIMIT} iterations at virtual time {out['end_time']:g}s without the clock advancing (busy loop in the manager) after {len(w.attempts)} attempts; last events: {tail}; {what}", sig="busy-loop")
     # I1 / I2 over the trace
     live = set()
     open_attempt = None
@@ -180,13 +183,15 @@ def grid_size(tier):
 
 def long_oracle(case) -> Info:
     cycles, mode = case
-    if mode == "loss":
+    if mode == "fail-streak":
+        script = [("fail", 0.0, None)] * cycles
+    elif mode == "loss":
         script = [("ok", 0.0, 0.3)] * cycles
     elif mode == "fail-loss":
         script = [("fail", 0.0, None), ("ok", 0.0, 0.3)] * (cycles // 2)
     else:
         script = [("ok", 0.5, 7.0)] * cycles
-    out = vtloop.run_scenario(script, horizon=cycles * 12.0 + 100)
+    out = vtloop.run_scenario(script, horizon=cycles * (61.0 if mode == "fail-streak" else 12.0) + 100)
     if out.get("aborted_task_explosion"):
         w = out["world"]
         fail(f"{w.max_tasks} asyncio tasks alive after {len(w.attempts)} reconnect cycles (bound {TASK_BOUND}): pending tasks grow with every cycle", sig="task-leak")
@@ -196,7 +201,7 @@ def long_oracle(case) -> Info:
 
 def long_cases(tier):
     sizes = [50, 500] if tier == "quick" else [50, 500, 3000]
-    return [(n, m) for n in sizes for m in ("loss", "fail-loss", "slow")]
+    return [(n, m) for n in sizes for m in ("loss", "fail-loss", "slow")] + [(1200 if tier == "quick" else 5000, "fail-streak")]
 
 
 def build() -> Check:
@@ -210,7 +215,7 @@ def build() -> Check:
             "await point: back-off sleep, pending attempt, connected, between loss and reconnect); and runs with close() at virtual times "
             "strictly inside every sleep/latency interval (midpoint and 99.9 %), at exactly every event time of the uninjected run (timer ties) plus drawn times; each injected run is drained for 200 s "
             "after close(). scenarios: Hypothesis-drawn scripts (shrinkable); grid: ALL scripts over the step alphabet (length <=4 over 5 "
-            "steps quick, length <=3 over 18 steps thorough); long: 50/500(/3000) reconnect cycles in three modes for the task bound. Invariants on the "
+            "steps quick, length <=3 over 18 steps thorough); long: 50/500(/3000) reconnect cycles in three modes, and a streak of 1200 (thorough 5000) consecutive failed attempts, for the task bound and 'keeps reconnecting'. Invariants on the "
             "recorded trace: <=1 live connection; attempt n+1 only after attempt n ended and its connection ended; without close() the run "
             "ends connected with attempts = failures + losses + 1; <= 8 tasks alive at any loop iteration; after close(): connect_loop() "
             "returns at the same virtual time, no attempt starts afterwards, every transport obtained is closed by then (not merely dropped by the peer later). Non-trivial = close lands "
